@@ -68,5 +68,89 @@ theorem applyParented_spec (h : H) (p c : Nat) (hw : WF h) :
     rw [hp] at this
     exact hq (Option.some.inj this).symm
 
+/-! ## Any sequence of link operations (chains, fan-out, moves between parents)
+
+Every `EntityParented` a peer handles and every local `set_parent` is one `applyParented`; a peer's hierarchy after a
+history is the fold of its operations.  Different peers handle the operations of *different* children in different
+orders (per-child order is what the channel and the relay preserve, `Proofs/CompOrder`), so the theorem is stated on
+what they share: the last operation naming each child. -/
+
+/-- the hierarchy after a list of `(parent, child)` operations, oldest first -/
+def applyAll (h : H) (ops : List (Nat × Nat)) : H := ops.foldl (fun h o => applyParented h o.1 o.2) h
+
+/-- the parent the last operation naming `c` gave it (`init` when none does) -/
+def lastOp (c : Nat) (ops : List (Nat × Nat)) (init : Option Nat) : Option Nat :=
+  ops.foldl (fun acc o => if o.2 = c then some o.1 else acc) init
+
+theorem applyParented_par (h : H) (p c x : Nat) :
+    (applyParented h p c).par x = if c = x then some p else h.par x := by
+  simp only [applyParented, addChild]
+  by_cases e : x = c
+  · subst e; simp
+  · have e' : ¬ c = x := fun q => e q.symm
+    simp [e, e']
+
+theorem applyAll_wf (h : H) (ops : List (Nat × Nat)) (hw : WF h) : WF (applyAll h ops) := by
+  induction ops generalizing h with
+  | nil => exact hw
+  | cons o ops ih => exact ih _ (applyParented_wf h o.1 o.2 hw)
+
+theorem applyAll_par (h : H) (ops : List (Nat × Nat)) (c : Nat) :
+    (applyAll h ops).par c = lastOp c ops (h.par c) := by
+  induction ops generalizing h with
+  | nil => rfl
+  | cons o ops ih =>
+    have := ih (applyParented h o.1 o.2)
+    simp only [applyAll, List.foldl_cons, lastOp] at this ⊢
+    rw [this, applyParented_par]
+
+theorem lastOp_init (c : Nat) (ops : List (Nat × Nat)) (init : Option Nat) :
+    lastOp c ops init = (lastOp c ops none).or init := by
+  induction ops generalizing init with
+  | nil => simp [lastOp]
+  | cons o ops ih =>
+    simp only [lastOp, List.foldl_cons] at ih ⊢
+    by_cases e : o.2 = c
+    · simp only [e, if_true]
+      rw [ih (some o.1)]
+      cases List.foldl (fun acc o => if o.2 = c then some o.1 else acc) none ops <;> simp
+    · simp only [e, if_false]
+      exact ih init
+
+/-- in a well-formed hierarchy the `Children` lists are determined, up to order, by the `Parent`s -/
+theorem wf_count (h : H) (hw : WF h) (c q : Nat) : (h.ch q).count c = if h.par c = some q then 1 else 0 := by
+  rw [List.Nodup.count (hw.2 q)]
+  by_cases hp : h.par c = some q
+  · rw [if_pos hp, if_pos ((hw.1 c q).mp hp)]
+  · rw [if_neg hp, if_neg (fun hm => hp ((hw.1 c q).mpr hm))]
+
+/-- **any two histories with the same last operation per child end with the same links**: same `Parent` for every
+child, every child listed exactly once under that parent and under no other, on both peers — whatever the order in
+which the operations of different children were handled, and however often a child moved in between -/
+theorem applyAll_agree (h1 h2 : H) (ops1 ops2 : List (Nat × Nat)) (hw1 : WF h1) (hw2 : WF h2)
+    (hp : ∀ c, h1.par c = h2.par c) (hl : ∀ c, lastOp c ops1 none = lastOp c ops2 none) :
+    (∀ c, (applyAll h1 ops1).par c = (applyAll h2 ops2).par c) ∧
+    ∀ c q, ((applyAll h1 ops1).ch q).count c = ((applyAll h2 ops2).ch q).count c ∧
+      ((applyAll h1 ops1).ch q).count c = if (applyAll h1 ops1).par c = some q then 1 else 0 := by
+  have hpar : ∀ c, (applyAll h1 ops1).par c = (applyAll h2 ops2).par c := by
+    intro c
+    rw [applyAll_par, applyAll_par, lastOp_init c ops1, lastOp_init c ops2, hl c, hp c]
+  refine ⟨hpar, fun c q => ?_⟩
+  rw [wf_count _ (applyAll_wf h1 ops1 hw1), wf_count _ (applyAll_wf h2 ops2 hw2), hpar c]
+  exact ⟨rfl, rfl⟩
+
+/-- a child named by some operation ends under the parent of the last such operation, exactly once, nowhere else -/
+theorem applyAll_last (h : H) (ops : List (Nat × Nat)) (hw : WF h) (c p : Nat)
+    (hl : lastOp c ops none = some p) :
+    (applyAll h ops).par c = some p ∧ ((applyAll h ops).ch p).count c = 1 ∧
+    ∀ q, q ≠ p → c ∉ (applyAll h ops).ch q := by
+  have hp : (applyAll h ops).par c = some p := by rw [applyAll_par, lastOp_init, hl]; rfl
+  have hwf := applyAll_wf h ops hw
+  refine ⟨hp, ?_, fun q hq hm => ?_⟩
+  · rw [wf_count _ hwf, if_pos hp]
+  · have := (hwf.1 c q).mpr hm
+    rw [hp] at this
+    exact hq (Option.some.inj this).symm
+
 end Hier
 end BevySync
